@@ -10,7 +10,7 @@ META = {
     'technique': 'static typestate analysis with the shape walker (throttle automaton over hand-off / reply events with a dominating-comparison fact) plus provenance of the throttle reply',
     'text': 'Decides on every abstract path of MaxRequests::poll_next over its decorator chains: a request read from the inner channel is handed to the application only under the fact '
             'in_flight < limit established after the last event that could change the count; a request read under in_flight >= limit is answered by exactly one start_send before anything '
-            'else is read and is never yielded; the reply is Response{request_id: that request\'s id, message: Err(ServerError{kind: WouldBlock, ..})}; readiness precedes the read (C14). '
+            'else is read and is never yielded; the limit compared is the constructor argument stored unchanged (no clamp or arithmetic: L = 0 refuses everything); the reply is Response{request_id: that request\'s id, message: Err(ServerError{kind: WouldBlock, ..})}; readiness precedes the read (C14). '
             'The stale-guard clause — no call that may retire a request between evaluating the guard and the refusal it licenses — fails at the inner poll_next (known finding D6).',
     'note': 'Trusted: Channel::in_flight_requests reports the table size (C11). Known finding D6: the guard is evaluated before inner.poll_next, which may itself retire requests (a Cancel '
             'read in the same poll), so a request can be refused although fewer than L were in flight when it was read.',
